@@ -143,94 +143,62 @@ pack ,
 string lengthOf , //x
 u8 falsey @calculatedFrom(
 ""a\\"" )  ,@calculatedFrom( ""it's"") string calculatedFrom @lengthOf( MetaDataX ) ,}")).
-Eval vm_compute in ("<<<M1626>>>" ++ check (runes_of_ascii "  options {
+Eval vm_compute in ("<<<M1661>>>" ++ check (runes_of_ascii "options {
+    FixedStringPadFromLeft = true;
+    FixedStringPadChar = '0';
 }
-options
 
-    { uint8x=  
-  // @lengthOf(
-  // " ++ [27880; 37322]%N ++ runes_of_ascii "
-  	42	uint8x = /// triple
-      ""abc"" ;//x
-  _x
-=
-'0'
+packet Leg {
+    InPrice0 {
+        repeat string clOrdID,
+        int16 msgKind,
+        zchar[5] Px,
+    },
+    i16 f1,
+    repeat f64 Side2,
+    string Acct,
 }
-packet u8x { zchar[ 1 ] 
-As	`crlf
-line`
 
-,
-
-match
-metadata  as
-float {""packet"": //
-
-trueish ,	}	,repeat rootA
-,  repeat
-metadata
-
-    repeatCount	// trailing space 
-,
-	@rightPad
-( 	 // `tick` ""quote"" 'q'
-    '0'
-
-    ) i64 body
-`// not a comment`,@tag( 
-1	)
-	string	string_
-	`line1
-line2`
-, 
-uint8  u8x
-`" ++ [28040; 24687; 31867; 22411]%N ++ runes_of_ascii "`	,
-packetx
-u128
-,
-
-u tag	, 
-repeat Logon
-
-    zchar `` 
-, }  packet
-zchar {
-    }
-packet 
-MetaDataX{ @lengthOf(  Packet
-
-    )
-
-    repeatCount int
-`doc` , @tag(
-7
-
-    )packetx
-
-    @calculatedFrom(""a\""b""  // c
-    ) , match
-
-    msg_type
-
-    as
-
-x
-    { ""\n""
-	:calculatedFrom
+packet Cancel {
+    zchar[4] clOrdID,
+    string seqNo,
+    Leg,
+    @leftPad('0')
+    char[11] OrderId,
 }
-    , //x
-		@leftPad (// packet A { u8 x, }
-  '\x00' )	@lengthOf( MetaDataX  // c
 
-  )
-// a // b
+packet Quote {
+    repeat char[4] sym,
+    f64 OrderId,
+    repeat Leg,
+    repeat i64 f1,
+    int16 Note,
+    zchar[3] count,
+}
 
-char[007  ]a1  `tab	here`
-, As
-
-@calculatedFrom( ""`tick`""	)`// not a comment`, }
-
-")).
+root packet Ack {
+    @leftPad(' ')
+    char[10] sym,
+    InPx60 {
+        Cancel,
+        repeat char[1] f1,
+        string Tail,
+        repeat InNote55 {
+            int8 count,
+            f64 f1,
+            repeat Cancel,
+        },
+        char[] tag7,
+        repeat string msgKind,
+    },
+    u8 lastPx,
+    match lastPx as Body {
+        152 : Quote,
+        173 : Cancel,
+        4 : Leg,
+    },
+    u16 Ref @calculatedFrom(""CRC32""),
+}")).
 Eval vm_compute in ("<<<M1551>>>" ++ check (runes_of_ascii "options {
     FixedStringPadFromLeft = true;
     FixedStringPadChar = '0';
@@ -448,58 +416,38 @@ Eval vm_compute in ("<<<M1863>>>" ++ check (runes_of_ascii "packet pack {
     //	t
     i16 a1 `a\`,
 }")).
-Eval vm_compute in ("<<<M1779>>>" ++ check (runes_of_ascii "options
-
+Eval vm_compute in ("<<<M163>>>" ++ check (runes_of_ascii "options { As = // trailing space 
+zchar[ 4294967296] ; } //	t
+packet len // packet A { u8 x, }
+{ @lengthOf(
+_x) match
+    // c
+    lengthOf
+    as
+//
+// `tick` ""quote"" 'q'
+string_// c
 {
-	float = char[]} // packet A { u8 x, }
-
-root packet Logon
-	{ 
-@tag(
-1
-    )// a // b
-  @calculatedFrom(
-
-    ""packet""  
-      // a // b
-    // " ++ [128512]%N ++ runes_of_ascii " emoji
-    )
-zchar[3	] 
-// c
-  //x
-		Z9_
-
+    [ 4294967296 ]: i64_ ""a	b"": o
 ,
-@lengthOf(charz )	@calculatedFrom(  ""1""
-    )
-match  roots
-    as 
-int{""a	b"" : MetaDataX,
-} 
+}
+, leftPad
+    @calculatedFrom( ""`tick`""	)
+// trailing space 
+// `tick` ""quote"" 'q'
+,@leftPad( '\x00' ) repeat charz /// triple
+msg_type
 ,
-    @calculatedFrom( ""a\""b""
-    ) match
-
-asx
-as lengthOf	{ """ ++ [128512]%N ++ runes_of_ascii """
-
-    : _x ,[
-
-255
-
-    ]	:
-
-BodyLength ,3:
-u8x,	0123456789
-    :
-
-T} 
-,  len	@lengthOf( leftPad 
+repeat i8
+Foo , }packet msg_type {
+//x
+// @lengthOf(
+@leftPad (
+'0'
 )
-	`u8 x,`
-    ,
-
-    }  // @lengthOf(
+u64 repeatCount @calculatedFrom(
+""" ++ [28040; 24687]%N ++ runes_of_ascii """) ,// packet A { u8 x, }
+}
 ")).
 Eval vm_compute in ("<<<M253>>>" ++ check (runes_of_ascii "packet
 u	{ @lengthOf( //
@@ -603,26 +551,22 @@ Logout
 	Logout 
 ,  }
     ,	}")).
-Eval vm_compute in ("<<<M232>>>" ++ check (runes_of_ascii "options {  A = i16
+Eval vm_compute in ("<<<M262>>>" ++ check (runes_of_ascii "  packet  Logon
+    { o Header ,	Header
+, @lengthOf(
+u )	char[ 255 ] tag `tab	here`, char[]falsey ,
+    @lengthOf(	zchar )
+    @rightPad (
+) float roots// @lengthOf(
+,
+@calculatedFrom(	""// no comment"") i64
+u8x,
+} options { metadata = '0' ;_x = 4294967296 ; Packet
+    =
+    '0'
 ;
     }
-    /// triple
-    root
-packet
-    rootA{
-    @tag( 7)int16 pack,Logon @calculatedFrom( ""a\""b"" ) `{ , }`
-    , @rightPad ( '\x00' )
-//
-//
-char[
-7
-    // `tick` ""quote"" 'q'
-    ]options1
-`tab	here`,@calculatedFrom(
-""" ++ [233]%N ++ runes_of_ascii "t" ++ [233]%N ++ runes_of_ascii """ )int @lengthOf(
-Packet
-) `crlf
-line`, }
+
 ")).
 Eval vm_compute in ("<<<M177>>>" ++ check (runes_of_ascii "root
 packet Logon {
